@@ -208,7 +208,18 @@ def _decoys(kw):
     # same cell size, halo and modes, wider flux map
     out.append(dict(base, srf_flx=dense((ny, nx + 4)), domain=(dx * (nx + 4), ymax)))
     k = int(rng.integers(2, 4))
-    return [out[i] for i in rng.permutation(len(out))[:k]]
+    pick = [out[i] for i in rng.permutation(len(out))[:k]]
+    if rng.random() < 0.5:
+        # a call that is rejected half-way (mode counts of the wrong parity for the padded grid - a ValueError after the argument checks), in
+        # the OTHER precision: whatever it switched on before it raised must not outlive it
+        other = "single" if kw.get("precision", "single") == "double" else "double"
+        if nxe % 2 or nye % 2:
+            # even counts on an odd padded grid: rejected after the padding has been worked out
+            pick.append(dict(base, precision=other, modes=(max(2, (min(mx, nxe) // 2) * 2), max(2, (min(my, nye) // 2) * 2))))
+        else:
+            # a level that is not on the column, closed-form branch: rejected where the heights are looked up
+            pick.append(dict(base, precision=other, analytic=True, levels=[len(np.atleast_1d(kw["z"])) + 3]))
+    return pick
 
 
 def call(**kw):
